@@ -38,6 +38,17 @@ class Sym:
         return f'{self.name}={"nan" if self.nan else self.rank}'
 
 
+class Just:
+    """Wrapper a hook can return to say "handled, and the value is exactly this" (needed when the value is None)."""
+
+    def __init__(self, v):
+        self.v = v
+
+
+def _unwrap(r):
+    return r.v if isinstance(r, Just) else r
+
+
 class AxisMismatch(Exception):
     def __init__(self, a, b, node):
         self.a, self.b, self.node = a, b, node
@@ -304,7 +315,7 @@ class Interp:
             if h is not None:
                 r = h(self, e, base)
                 if r is not None:
-                    return r
+                    return _unwrap(r)
             if isinstance(base, Row):
                 sl = e.slice
                 if isinstance(sl, ast.Tuple):
@@ -336,14 +347,14 @@ class Interp:
             if h is not None:
                 r = h(self, e)
                 if r is not None:
-                    return r
+                    return _unwrap(r)
             return OPQ
         if isinstance(e, ast.Call):
             h = self.hooks.get('call')
             if h is not None:
                 r = h(self, e)
                 if r is not None:
-                    return r
+                    return _unwrap(r)
             fn = ast.unparse(e.func)
             if fn == 'range':
                 a = [self.expr(x) for x in e.args]
@@ -400,6 +411,25 @@ class Interp:
             for a in e.args:
                 self.expr(a)
             return OPQ
+        if isinstance(e, (ast.ListComp, ast.GeneratorExp)):
+            if len(e.generators) != 1 or e.generators[0].ifs:
+                return OPQ
+            g = e.generators[0]
+            it = self.expr(g.iter)
+            if it is OPQ or isinstance(it, Sym):
+                return OPQ
+            seq = it.vals if isinstance(it, Row) else it
+            out = []
+            saved = dict(self.env)
+            for v in seq:
+                self.assign(g.target, v)
+                out.append(self.expr(e.elt))
+            for k in list(self.env):
+                if k not in saved:
+                    del self.env[k]
+                else:
+                    self.env[k] = saved[k]
+            return out
         if isinstance(e, ast.JoinedStr):
             return OPQ
         return OPQ
